@@ -48,6 +48,9 @@ type vflBranch struct {
 	// workflow only: the selected target maps the branch source's output (true) or, like the other target, the graph input (false:
 	// then the branch condition is the only consumer of the source's stream and the copy routed by the branch is surplus)
 	BData bool `json:"bdata"`
+	// workflow only: the branch targets take no data from any node at all (their whole input is a static value), so the copy the
+	// runner routes to the selected one has no data predecessor set to be matched against and must be closed on the spot
+	BNone bool `json:"bnone"`
 }
 
 type vflCase struct {
@@ -237,6 +240,12 @@ func vflBuild(r *vflRec, c *vflCase) (Runnable[map[string]any, map[string]any], 
 			// a workflow branch carries no data: the target the scenario's branch selects maps the branch source's output, the other
 			// one maps the graph input -- so that every produced value has a consumer (a skipped node consumes nothing)
 			for i, e := range b.Ends {
+				if b.BNone {
+					if e != END {
+						nodes[e].SetStaticValue(FieldPath{"static"}, "s")
+					}
+					continue
+				}
 				from := b.From
 				if i != b.Pick || !b.BData {
 					from = START
